@@ -908,7 +908,7 @@ def r_rectify_rotation(cx):
     terms makes it a shear."""
     import pertuple
     import elems as E
-    n = 0
+    n = fns = 0
     for fn in ("inner_op::omerc::fwd", "inner_op::omerc::inv"):
         f = cx.f.fn(fn)
         # S, C: the two projections of sin_cos(gamma_c) that occur in products
@@ -942,6 +942,7 @@ def r_rectify_rotation(cx):
             for key, cs in by.items():
                 if len(cs) == 2:
                     pairs.append((cs[0][0], cs[0][2], cs[1][2], cs[0][4] or f.d["span"]))
+        n_before = n
         for (bb, e, nn, span) in pairs:
             used = None
             for key, (S, C) in sincos.items():
@@ -965,7 +966,13 @@ def r_rectify_rotation(cx):
                   "%s: the step between skew and rectified coordinates is a rotation through gamma_c" % fn if ok else
                   "%s: the step between skew (u, v) and rectified coordinates is not a rotation: %s" % (fn, why),
                   cx.where(span))
-    cx.count("R-RECTIFY-ROTATION", "pairs", n)
+        if n == n_before:
+            cx.ob("R-RECTIFY-ROTATION", "%s/anchor" % fn, False,
+                  "anchor-missing: no pair of values built from sin/cos of the rectification angle found in %s" % fn,
+                  cx.where(f.d["span"]))
+        else:
+            fns += 1
+    cx.count("R-RECTIFY-ROTATION", "functions", fns)
 
 
 @rule("R-COINCIDENCE-BOTH", ["C06"])
